@@ -8,7 +8,7 @@
 
    [render_*] gives the token list for every parenthesisation choice of every expression ([srho]: clause number and
    position -> [rho]); [ast_of_*] is the prescribed tree (typed mirror of Model/Expr.v).
-   Not in this reference grammar (see design/C03.md): SELECT ALL, t.*, derived tables, LATERAL, GROUPING SETS, FOR, sub-query expressions, window functions, ON DUPLICATE KEY, MERGE, DDL.
+   Not in this reference grammar (see design/C03.md): SELECT ALL, derived tables, LATERAL, GROUPING SETS, FOR, sub-query expressions, window functions, ON DUPLICATE KEY, MERGE, DDL.
    Definitions only. *)
 From Coq Require Import List String Ascii Bool Arith NArith ZArith DecimalString Decimal.
 From GV Require Import Spec.RefGrammar Model.Expr.
@@ -72,7 +72,7 @@ Record mjoin := MkJoin { j_nat : bool; j_side : jside; j_table : mtable; j_cond 
 
 Record morder := MkOrder { o_expr : mexpr; o_dir : option bool (* Some true = ASC *); o_nulls : option bool (* Some true = FIRST *) }.
 
-Inductive mitem := IStar | IExpr (e : mexpr) (alias : malias).
+Inductive mitem := IStar | IQStar (table : string) (* t.* *) | IExpr (e : mexpr) (alias : malias).
 Inductive mgroup := GrExpr (e : mexpr) | GrRollup (es : list mexpr) | GrCube (es : list mexpr).   (* e | ROLLUP (..) | CUBE (..) *)
 
 (* FETCH {FIRST | NEXT} n [PERCENT] [ROW | ROWS] {ONLY | WITH TIES} *)
@@ -142,7 +142,11 @@ Fixpoint joins_toks (sr : srho) (i : nat) (l : list mjoin) : list token :=
   match l with [] => [] | j :: tl => join_toks (sr cl_on i) j ++ joins_toks sr (S i) tl end.
 
 Definition item_toks (r : rho) (it : mitem) : list token :=
-  match it with IStar => [Tk TyAsterisk "*"] | IExpr e a => render 0 r e ++ alias_toks a end.
+  match it with
+  | IStar => [Tk TyAsterisk "*"]
+  | IQStar t => [Tk TyIdent t; tPeriod; Tk TyAsterisk "*"]
+  | IExpr e a => render 0 r e ++ alias_toks a
+  end.
 Fixpoint items_toks (sr : srho) (i : nat) (l : list mitem) : list (list token) :=
   match l with [] => [] | it :: tl => item_toks (sr cl_items i) it :: items_toks sr (S i) tl end.
 
@@ -317,6 +321,7 @@ Fixpoint ast_of_joins (base : gtable) (k : nat) (l : list mjoin) : list gjoin :=
 Definition ast_of_item (it : mitem) : gexpr :=
   match it with
   | IStar => GIdent "*" ""
+  | IQStar t => GIdent "*" t
   | IExpr e None => ast_of e
   | IExpr e (Some (_, n)) => GAliased (ast_of e) n
   end.
@@ -375,7 +380,7 @@ Definition table_ok (t : mtable) : bool :=
   negb (Nat.eqb (List.length (tb_path t)) 0) && forallb name_ok (tb_path t) && alias_ok (tb_alias t).
 Definition is_column_ref (e : mexpr) : bool := match e with MIdent _ _ | MQIdent _ _ => true | _ => false end.
 Definition item_ok (it : mitem) : bool :=
-  match it with IStar => true | IExpr e a => ref_expr e && alias_ok a end.
+  match it with IStar => true | IQStar t => name_ok t | IExpr e a => ref_expr e && alias_ok a end.
 (* an alias without AS directly after a bare column reference is the listed known finding
    `implicit-alias-bare-column` (pinned by the project's tests): the tree as it is handles the statements without
    that shape *)
@@ -441,7 +446,7 @@ Fixpoint exprs_depth (sr : srho) (c : nat) (i : nat) (l : list mexpr) : nat :=
 Fixpoint items_depth (sr : srho) (i : nat) (l : list mitem) : nat :=
   match l with
   | [] => 0
-  | it :: tl => Nat.max (match it with IStar => 0 | IExpr e _ => pdepth 0 (sr cl_items i) e end) (items_depth sr (S i) tl)
+  | it :: tl => Nat.max (match it with IExpr e _ => pdepth 0 (sr cl_items i) e | _ => 0 end) (items_depth sr (S i) tl)
   end.
 Fixpoint joins_depth (sr : srho) (i : nat) (l : list mjoin) : nat :=
   match l with
@@ -545,7 +550,7 @@ Definition stmt_depth (sr : srho) (s : mstmt) : nat :=
 (* non-vacuity *)
 Definition ex_select : mselect :=
   MkSelect true []
-    [IExpr (MQIdent "u" "id") None; IExpr (MFunc "COUNT" false [MIdent false "x"]) (Some (false, "n")); IStar]
+    [IExpr (MQIdent "u" "id") None; IExpr (MFunc "COUNT" false [MIdent false "x"]) (Some (false, "n")); IStar; IQStar "o"]
     [MkTable ["public"; "users"] (Some (true, "u")); MkTable ["t"] None]
     [MkJoin false (SLeft true) (MkTable ["orders"] (Some (false, "o")))
        (Some (JOn (MBin (BCmp CEq) (MQIdent "o" "uid") (MQIdent "u" "id"))));
@@ -557,7 +562,7 @@ Definition ex_select : mselect :=
 Example ex_select_ok : select_ok ex_select = true. Proof. reflexivity. Qed.
 Example ex_select_text :
   map lit (render_select (fun _ _ => no_parens) ex_select)
-  = ["SELECT"; "DISTINCT"; "u"; "."; "id"; ","; "COUNT"; "("; "x"; ")"; "n"; ","; "*"; "FROM"; "public"; "."; "users"; "AS"; "u";
+  = ["SELECT"; "DISTINCT"; "u"; "."; "id"; ","; "COUNT"; "("; "x"; ")"; "n"; ","; "*"; ","; "o"; "."; "*"; "FROM"; "public"; "."; "users"; "AS"; "u";
      ","; "t"; "LEFT"; "OUTER"; "JOIN"; "orders"; "o"; "ON"; "o"; "."; "uid"; "="; "u"; "."; "id";
      "JOIN"; "items"; "USING"; "("; "oid"; ","; "k"; ")";
      "WHERE"; "a"; "OR"; "b"; "AND"; "NOT"; "c"; "GROUP"; "BY"; "u"; "."; "id"; "HAVING"; "COUNT"; "("; "x"; ")"; ">"; "1";
